@@ -3,6 +3,7 @@
 package checks
 
 import (
+	"bytes"
 	"encoding/json"
 	"fmt"
 	"sort"
@@ -79,7 +80,19 @@ func (w *World) applyUntrustedRaw(p []string) (bool, bool) {
 		w.send(pc, w.Txs[p[1]])
 		w.settle()
 		return true, true
-	case "ublock":
+	case "uxtx": // the tx wrapped in the large-message framing (extmsg)
+		if !alive {
+			return true, false
+		}
+		w.noteArrival(p[1], "U1", "tx")
+		var buf bytes.Buffer
+		if err := w.Txs[p[1]].BtcEncode(&buf, wire.ProtocolVersion); err != nil {
+			panic(err)
+		}
+		w.send(pc, &wire.MsgExtended{ExtCommand: wire.CmdTx, Length: uint64(buf.Len()), Payload: buf.Bytes()})
+		w.settle()
+		return true, true
+	case "ublock", "uxblock":
 		if !alive {
 			return true, false
 		}
@@ -111,7 +124,15 @@ func (w *World) applyUntrustedRaw(p []string) (bool, bool) {
 		case "orphan": // a valid block on an unknown parent
 			msg = core.MakeBlock(bitcoin.Hash32{0xac}, 50, 5050, nil)
 		}
-		w.send(pc, msg)
+		if p[0] == "uxblock" {
+			var buf bytes.Buffer
+			if err := msg.BtcEncode(&buf, wire.ProtocolVersion); err != nil {
+				panic(err)
+			}
+			w.send(pc, &wire.MsgExtended{ExtCommand: wire.CmdBlock, Length: uint64(buf.Len()), Payload: buf.Bytes()})
+		} else {
+			w.send(pc, msg)
+		}
 		w.settle()
 		return true, true
 	case "uaddr":
@@ -142,6 +163,7 @@ type trustedObs struct {
 	Confirmed []string
 	Safe      []string
 	Converged bool
+	Timeouts  bool // convergence needed the node's request time-outs (a stall until then)
 	New       []string // txids delivered as new (informational: untrusted peers may add unconfirmed txs)
 }
 
@@ -149,6 +171,7 @@ func (w *World) observeTrusted(converged bool) trustedObs {
 	ctx := core.Ctx()
 	var o trustedObs
 	o.Converged = converged
+	o.Timeouts = w.drainTimeouts
 	tip := w.Node.LastHeight(ctx)
 	for h := 0; h <= tip; h++ {
 		x, err := w.Node.Hash(ctx, h)
@@ -215,6 +238,12 @@ func c12Run(p histParams, hist []string) (*World, trustedObs, string) {
 	if len(w.viol) == 0 {
 		key = w.Key(w.txMonitorKey())
 	}
+	w.enabledAtKey = nil
+	for _, ev := range p.Events { // what can happen next is decided in the state the key describes, before the drain
+		if w.eventEnabled(ev) {
+			w.enabledAtKey = append(w.enabledAtKey, ev)
+		}
+	}
 	ok, _ := w.drainConverge()
 	for i := 0; i < 10; i++ { // past the safe delay
 		w.pingAll()
@@ -231,12 +260,7 @@ func c12Compare(p histParams, hist []string) (string, []string, []core.Violation
 		viol = append(viol, core.Violation{Property: "C12", Clause: clause, Class: class, Detail: detail,
 			Witness: map[string]interface{}{"hist": hist, "scenario": p}})
 	}
-	var enabled []string
-	for _, ev := range p.Events {
-		if w.eventEnabled(ev) {
-			enabled = append(enabled, ev)
-		}
-	}
+	enabled := w.enabledAtKey
 	// direct clauses
 	verifiedSent := false
 	for _, ev := range hist {
@@ -291,6 +315,9 @@ func c12Compare(p histParams, hist []string) (string, []string, []core.Violation
 			}
 		}
 	}
+	if obs.Converged && ref.Converged && obs.Timeouts && !ref.Timeouts {
+		fail("syncing-not-stalled", "untrusted traffic stalled the node until a request time-out fired (involving "+lastU+")", "with the untrusted events the node only reached the trusted peer's tip after its 60 s / 600 s request time-outs forced a reconnect; without them it followed at once")
+	}
 	if fmt.Sprint(obs.Chain) != fmt.Sprint(ref.Chain) || obs.Converged != ref.Converged {
 		fail("chain-unaffected", "final chain differs with untrusted traffic (involving "+lastU+")", fmt.Sprintf("with untrusted events: chain %v converged=%v; without: chain %v converged=%v", obs.Chain, obs.Converged, ref.Chain, ref.Converged))
 	} else if fmt.Sprint(obs.Headers) != fmt.Sprint(ref.Headers) {
@@ -313,10 +340,14 @@ func c12Compare(p histParams, hist []string) (string, []string, []core.Violation
 
 func c12Scenarios() []histParams {
 	ev := []string{"ext:1", "ans", "tx:T:R1", "inv:T:R3", "mine:R1", "tick:250", "tick:2300",
-		"uh:good", "uh:low", "uh:unknown", "uh:unlinked", "uh:empty", "uinv:R3", "utx:R3", "utx:D1", "utx:I1", "ublock:tip", "ublock:fake", "ublock:orphan", "uaddr", "ugarbage"}
+		"uh:good", "uh:low", "uh:unknown", "uh:unlinked", "uh:empty", "uinv:R3", "utx:R3", "uxtx:R3", "utx:D1", "utx:I1", "ublock:tip", "ublock:fake", "uxblock:fake", "ublock:orphan", "uaddr", "ugarbage"}
 	cfg := txCfg(1)
 	cfg.InitialChain, cfg.StartHeight = 12, 10
-	return []histParams{{Prop: "C12", Cfg: cfg, Boot: "synced", Events: ev, Tx: true}}
+	// second scenario: one level deeper over the events around an outstanding / delivered-but-unprocessed block
+	// request and a verified untrusted peer's transactions
+	focus := []string{"ext:1", "ans", "tick:250", "tick:2300", "uh:good", "uinv:R3", "utx:R3", "uxtx:R3", "inv:T:R3", "ublock:fake", "uxblock:fake"}
+	return []histParams{{Prop: "C12", Cfg: cfg, Boot: "synced", Events: ev, Tx: true},
+		{Prop: "C12", Cfg: cfg, Boot: "synced", Events: focus, Tx: true, ExtraDepth: 1}}
 }
 
 func init() {
@@ -342,18 +373,45 @@ func init() {
 	All["C12"] = func() int {
 		rep := core.NewReport("C12", "model_checking")
 		pool := core.NewPool()
-		depth, maxStates, budget := 4, 200000, 150*time.Second
+		depth, maxStates, budget := 3, 200000, 150*time.Second
 		if rep.Thorough() {
 			depth, maxStates, budget = 5, 3000000, 25*time.Minute
 		}
-		sc := c12Scenarios()[0]
-		key, _, viol, _ := c12Compare(sc, nil)
-		for _, v := range viol {
-			rep.AddViolation(v)
+		deadline := time.Now().Add(budget)
+		totS, totT, minDepth := 0, 0, -1
+		for si, sc := range c12Scenarios() {
+			key, _, viol, _ := c12Compare(sc, nil)
+			for _, v := range viol {
+				rep.AddViolation(v)
+			}
+			if len(viol) > 0 {
+				continue
+			}
+			sub := core.NewReport("C12", "model_checking")
+			st := core.BFS(pool, sub, core.BFSOpts{Op: "c12", Params: sc, MaxDepth: depth + sc.ExtraDepth, MaxStates: maxStates, Deadline: deadline, InitKey: key, Batch: 2})
+			totS, totT = totS+st.States, totT+st.Transitions
+			if minDepth < 0 || st.Depth-sc.ExtraDepth < minDepth {
+				minDepth = st.Depth - sc.ExtraDepth
+			}
+			for _, v := range sub.Violations {
+				rep.AddViolation(v)
+			}
+			for o := range sub.Outcomes {
+				rep.Outcome(o)
+			}
+			for _, smp := range sub.Samples {
+				rep.AddSample(map[string]interface{}{"scenario": si, "history": smp})
+			}
+			for _, e := range sub.HarnessErrs {
+				rep.HarnessError("%s", e)
+			}
+			if !sub.Exhaustive {
+				rep.Exhaustive = false
+				rep.Coverage["cap_hit"] = sub.Coverage["cap_hit"]
+			}
+			rep.Coverage[fmt.Sprintf("scenario_%d_levels", si)] = st.LevelSizes
 		}
-		if len(viol) == 0 {
-			core.BFS(pool, rep, core.BFSOpts{Op: "c12", Params: sc, MaxDepth: depth, MaxStates: maxStates, Deadline: time.Now().Add(budget), InitKey: key, Batch: 2})
-		}
+		rep.Coverage["states"], rep.Coverage["transitions"], rep.Coverage["traces_validated_against_impl"], rep.Coverage["depth_completed"] = totS, totT, totT, minDepth
 		kept := rep.Violations[:0]
 		for _, v := range rep.Violations {
 			if v.Property == "C12" || v.Clause == "panic" || v.Clause == "livelock" {
@@ -362,7 +420,7 @@ func init() {
 			}
 		}
 		rep.Violations = kept
-		rep.Coverage["rule"] = "differential explicit-state BFS: every history over trusted events {extend, answer, trusted tx/inv, mine, clock} and raw untrusted-connection messages {headers: linked near tip / low / unknown first / unlinked / empty; inv; tx (relevant, conflicting, irrelevant); block: already held / header of an outstanding request with another body / orphan; addr; garbage} is executed on the real node twice - as is and with the untrusted events removed - followed by a fair drain; final chain, HandleHeaders sequence and confirmed notifications must be identical and the safe set may only shrink; nothing is requested from or delivered because of a peer that never passed header verification"
+		rep.Coverage["rule"] = "differential explicit-state BFS: every history over trusted events {extend, answer, trusted tx/inv, mine, clock} and raw untrusted-connection messages {headers: linked near tip / low / unknown first / unlinked / empty; inv; tx (relevant, conflicting, irrelevant); tx in the large-message (extmsg) framing; block: already held / header of an outstanding or delivered-but-unprocessed request with another body (plain and extmsg) / orphan; addr; garbage} is executed on the real node twice - as is and with the untrusted events removed - followed by a fair drain; final chain, HandleHeaders sequence and confirmed notifications must be identical the safe set may only shrink, and the run with untrusted traffic must not need the node's request time-outs to converge when the run without does not; nothing is requested from or delivered because of a peer that never passed header verification"
 		rep.Assumptions = append(peerAssumption, "one untrusted connection; the trusted peer is well behaved")
 		return rep.Finish()
 	}
